@@ -19,6 +19,10 @@ CONSTANTS Pids,      \* account identifiers (strings)
 NONE  == "none"
 NEVER == -1000       \* "no instant" (zero time.Time / absent stamp)
 NRC   == 3           \* recovery codes per generation tracked abstractly
+G     == 10          \* time units per tick: durations are configured in ticks, time runs in units
+\* a duration configured as k ticks is (Thr(k) + 1/2) units on the wall clock: events happen at
+\* whole units, so the instant of exact equality with a threshold never occurs
+Thr(k) == G * k + G \div 2
 
 VARIABLES st, cfg, resp
 vars == <<st, cfg, resp>>
@@ -150,9 +154,9 @@ Mail(h, m) ==
 \* lock.updateLockedState for the user u (pid) held in the request context
 LockUpdate(h, c, u, correct) ==
   LET r   == h.db[u]
-      inW == h.now - r.last <= c.lockWindow
+      inW == h.now - r.last <= Thr(c.lockWindow)
       n   == IF correct THEN r.att ELSE IF inW THEN r.att + 1 ELSE 1
-      lu  == IF ~correct /\ n >= c.lockAfter THEN h.now + c.lockDuration ELSE r.lockedUntil
+      lu  == IF ~correct /\ n >= c.lockAfter THEN h.now + Thr(c.lockDuration) ELSE r.lockedUntil
       hc  == Call(h, "Save", u)
       h1  == SaveLast([hc EXCEPT !.db[u].att = n, !.db[u].last = h.now, !.db[u].lockedUntil = lu], u)
   IN  IF Hit(hc) THEN HR(Fail(hc), FALSE)
@@ -203,7 +207,7 @@ RememberAuth(h) ==
                                  !.rs.uid = t.o, !.rs.half = TRUE]
 
 (* expire module *)
-Expired(s, c, now) == s.lastAct # NEVER /\ now - s.lastAct > c.expireAfter
+Expired(s, c, now) == s.lastAct # NEVER /\ now - s.lastAct > Thr(c.expireAfter)
 
 ExpireMW(h, c) ==
   IF h.rs.uid = NONE THEN h
@@ -228,7 +232,7 @@ TotpHijack(h, u) ==
   IF h.db[u].totp = 0 THEN HR(h, FALSE)
   ELSE HR(Redirect(PutS(h, "totpPend", u), "totpValidate"), TRUE)
 
-\* sms2fa.SendCodeToUser; rate limit = no tick since the last send in this session.
+\* sms2fa.SendCodeToUser; rate limit (10 s) = not a single unit has passed since the last send in this session.
 \* The session is written before the sender is called: a code that was not sent
 \* is known to nobody (id -1)
 SmsSend(h, phone) ==
@@ -358,8 +362,8 @@ RecoverStart(h, c, e) ==
             IN  IF Hit(hc) THEN Fail(hc)
                 ELSE LET m == Mail(hc, [to |-> {u} \cup Secondary(u), kind |-> "recover", tok |-> t])
                          h1 == IF m.sent
-                               THEN [Bump(m.h, "rt") EXCEPT !.db[u].rTok = t, !.db[u].rExp = h.now + c.recoverTTL]
-                               ELSE [m.h EXCEPT !.db[u].rTok = -1, !.db[u].rExp = h.now + c.recoverTTL]
+                               THEN [Bump(m.h, "rt") EXCEPT !.db[u].rTok = t, !.db[u].rExp = h.now + Thr(c.recoverTTL)]
+                               ELSE [m.h EXCEPT !.db[u].rTok = -1, !.db[u].rExp = h.now + Thr(c.recoverTTL)]
                      IN  Redirect(h1, "recoverOK")
 
 RecoverEnd(h, c, e) ==
@@ -833,8 +837,9 @@ Request(S, c, e) ==
 Env(S, c, e) ==
   LET S1 ==
     IF e.act \in {"AdminLock", "AdminUnlock", "RestartConfirm", "UpdatePassword"} /\ ~S.db[e.pid].ex THEN S ELSE
-    CASE e.act = "Tick" -> [S EXCEPT !.now = @ + e.d]
-      [] e.act = "AdminLock" -> [S EXCEPT !.db[e.pid].lockedUntil = S.now + c.lockDuration]
+    CASE e.act = "Tick" -> [S EXCEPT !.now = @ + G * e.d]      \* whole ticks
+      [] e.act = "Tock" -> [S EXCEPT !.now = @ + e.d]          \* single units
+      [] e.act = "AdminLock" -> [S EXCEPT !.db[e.pid].lockedUntil = S.now + Thr(c.lockDuration)]
       [] e.act = "AdminUnlock" ->
            [S EXCEPT !.db[e.pid].att = 0, !.db[e.pid].last = NEVER, !.db[e.pid].lockedUntil = NEVER]
       [] e.act = "RestartConfirm" ->
@@ -851,7 +856,7 @@ Env(S, c, e) ==
                                     THEN {[to |-> {e.pid}, kind |-> "confirm", tok |-> S1.iss["ct"]]}
                                     ELSE {}]]
 
-EnvActs == {"Tick", "AdminLock", "AdminUnlock", "RestartConfirm", "UpdatePassword",
+EnvActs == {"Tick", "Tock", "AdminLock", "AdminUnlock", "RestartConfirm", "UpdatePassword",
             "StealCookie", "DropSession", "JunkCookie", "AppKey"}
 
 \* the secrets that are live (usable) in a state; whatever leaves this set is
